@@ -25,7 +25,7 @@ def run_seed(prop, seed, tier, profile=None, overrides=None):
     profile = profile or prop
     g = gen.Gen(seed, profile, tier=tier, overrides=overrides)
     mode = "real" if prop == "C14" else "forced"
-    cfg = {"seed": seed, "contraction": g.contraction, "ops": g.ops, "mode": mode, "lib_seed": seed % 1000 + 1}
+    cfg = {"seed": seed, "contraction": g.contraction, "ops": g.ops, "mode": mode, "lib_seed": seed % 1000 + 1, "debuglog": g.debuglog}
     keep = prop in ("C14",)
     rr = runner.execute_run(cfg, gen=g, keep_snapshots=keep)
     viols = [v.to_json() for v in _violations_for(prop, rr)]
@@ -102,7 +102,7 @@ def run_seed(prop, seed, tier, profile=None, overrides=None):
     elif prop == "C18":
         a, b = twins.c18_twins(cfg_json, rr.recipes)
         v, sid = twins.compare_footprints(a, b)
-        twin_steps += min(a.steps, b.steps)
+        twin_steps += min(a.steps, b.steps) if b is not None else 0
         if v is not None:
             v.sid = sid
             vj = v.to_json()
@@ -217,7 +217,7 @@ def c14_checks(cfg, rr, seed):
     reseed = [restore, reseed]
     A = runner.execute_run(dict(c), recipes=copy.deepcopy(reseed + P), stop_on_taint=False)
     ka = list(A.sampler_keys)
-    B = runner.execute_run(dict(c, lib_seed=c.get("lib_seed", 1) + 17), recipes=copy.deepcopy(others + junk + reseed + P), stop_on_taint=False)
+    B = runner.execute_run(dict(c, lib_seed=c.get("lib_seed", 1) + 17, debuglog=not c.get("debuglog")), recipes=copy.deepcopy(others + junk + reseed + P), stop_on_taint=False)  # and under the other logging level
     n = A.steps + B.steps
     pa = [e for e in A.events if e["sid"] < 10**6]
     pb = [e for e in B.events if e["sid"] < 10**6 and any(r["sid"] == e["sid"] for r in P)]
